@@ -990,7 +990,7 @@ fn total_eq_of_key_seqs(a: &Seq, b: &Seq) -> bool {
 fn total_eq_of_keys(a: &Obj, b: &Obj) -> bool {
     match (a, b) {
         (Obj::Null, Obj::Null) => true,
-        (Obj::Num(a), Obj::Num(b)) => a == b || a.is_nan() && b.is_nan(),
+        (Obj::Num(a), Obj::Num(b)) => a.total_eq(b),
         (Obj::Seq(a), Obj::Seq(b)) => total_eq_of_key_seqs(a, b),
         _ => false,
     }
